@@ -62,7 +62,7 @@ theorem writeAll_mem (files : Path → SrcVal) (ws : List (Path × Nat)) (g : Pa
 /-- the world after the steps of an execution, and the record it ends with -/
 theorem applySteps_exec_src (P : Params) (t : Tree) (o : Opts) (w : World) (l : Label) (d : Def) (info : Rec)
     (depData : List (Label × Stamp)) (hk : d.kind = .src) :
-    let r : Rec := ⟨depData, srcData P (w.files d.path), false, info.runs⟩
+    let r : Rec := ⟨depData, srcData P (w.files d.path), false, info.runs, none⟩
     execSteps P t o w l d info depData =
       ([⟨none, .bodyBefore, l⟩, ⟨none, .bodyAfter, l⟩, ⟨none, .recordSuccess, l⟩] ++ saveSteps l r, r, true) ∧
     applySteps w (execSteps P t o w l d info depData).1 = { w with recs := upd w.recs l (some r) } := by
@@ -79,7 +79,7 @@ theorem upd_upd {α} (f : Nat → α) (k : Nat) (a b : α) : upd (upd f k a) k b
 
 theorem applySteps_exec_fn_ok (P : Params) (t : Tree) (o : Opts) (w : World) (l : Label) (d : Def) (info : Rec)
     (depData : List (Label × Stamp)) (hk : d.kind = .fn) (hf : o.fails l = false) :
-    let r : Rec := ⟨depData, .env d.env, false, info.runs + 1⟩
+    let r : Rec := ⟨depData, .env d.env, false, info.runs + 1, some (attrsOf d)⟩
     (execSteps P t o w l d info depData).2 = (r, true) ∧
     applySteps w (execSteps P t o w l d info depData).1 =
       { w with files := writeAll w.files (bodyWrites P t w l d), recs := upd w.recs l (some r) } := by
@@ -103,7 +103,7 @@ def garbageWrites (d : Def) : List (Path × Nat) :=
 
 theorem applySteps_exec_fn_fail (P : Params) (t : Tree) (o : Opts) (w : World) (l : Label) (d : Def) (info : Rec)
     (depData : List (Label × Stamp)) (hk : d.kind = .fn) (hf : o.fails l = true) :
-    let r : Rec := ⟨depData, .empty, true, info.runs⟩
+    let r : Rec := ⟨depData, .empty, true, info.runs, none⟩
     (execSteps P t o w l d info depData).2 = (r, false) ∧
     applySteps w (execSteps P t o w l d info depData).1 =
       { w with files := writeAll w.files (garbageWrites d), recs := upd w.recs l (some r) } := by
